@@ -67,7 +67,12 @@ def catalog(pid, tier):
              inst("int_indep2_w2_donefirst", "indep2", 2, 30, opts={"interrupt": True, "done_first": True}, witnesses=("interrupted",))]
         t = q + [inst("int_join3_w2", "join3", 2, 36, opts={"interrupt": True}, witnesses=("interrupted",)),
                  inst("int_sym2_w2", None, 2, 30, opts={"interrupt": True}, witnesses=("interrupted",), sym=True, N=2)]
-    return q if tier == "quick" else t
+    out = q if tier == "quick" else t
+    if pid == "C10":
+        for s in out:
+            if s["graph"] is not None and "parallel" not in s["witnesses"]:
+                s["witnesses"].append("parallel")
+    return out
 
 
 def run_instance(spec):
@@ -149,6 +154,18 @@ def main(pid):
             else:
                 harness_err.append(f"{r['name']}: model {r['bad']} did not reproduce on the real code (replay rc {rc}): {json.dumps(out)[:600]}")
             samples.append({"instance": r["name"], "status": st, "bad": r.get("bad"), "model": r.get("model"), "queries": r["queries"]})
+        elif st == "parallelism_lost" and pid == "C10":
+            path = os.path.join(C.replay_dir(pid), f"{r['name']}_parallel.json")
+            json.dump({"src": C.SRC, "N": r["N"], "W": r["W"], "edges": [s for s in specs if s["name"] == r["name"]][0]["graph"], "want": min(r["W"], r["width"])}, open(path, "w"))
+            p = subprocess.run([C.PY, os.path.join(C.VERIF, "conc", "replay_parallel.py"), path], capture_output=True, text=True, timeout=120)
+            if p.returncode == 10:
+                C.violation(pid, path)
+                print(f"  instance {r['name']}: {r.get('detail')}; real run: {p.stdout.strip()[-200:]}")
+                ev.violations += 1
+                code = C.EXIT_VIOLATION
+            else:
+                harness_err.append(f"{r['name']}: parallelism_lost did not reproduce: {p.stdout[-300:]}{p.stderr[-300:]}")
+            samples.append({"instance": r["name"], "status": st, "detail": r.get("detail"), "queries": r.get("queries")})
         else:
             harness_err.append(f"{r['name']}: {st} {r.get('detail', '')}")
             samples.append({"instance": r["name"], "status": st, "detail": r.get("detail"), "queries": r.get("queries")})
